@@ -25,6 +25,15 @@ C01 driver: stateful line protocol around Model/Timeline.lean.
                                 one registry as the code stores it (Model/TimelineBuckets.lean: class-keyed
                                 defaultdict of ordered sets); answers `<result>;<non-empty buckets by class id>`
 
+  round 6 (Model/TimelineY.lean; the state is a `YPart`: + `_start_note`/`_end_note` of the tuplets, the memo
+  `_number_of_staves`; the `staff` attribute of the objects is fixed by `staff`):
+  staff <n s0 … s(n-1)>         the `staff` attribute of every object (`-` = None)
+  tupS tup note | tupE tup note tuplet.start_note = note / tuplet.end_note = note (`-` = None)
+  view <name>                   part.<name> (notes, measures, rests, …: Gen/C01Views.lean); `-` = no such wrapper
+  staves                        part.number_of_staves
+  cmp a b                       the six rich comparisons TimePoint(a) <op> TimePoint(b) (stateless)
+  the dump has two more components: `D` (o.duration of every object) and `S` (the memo `_number_of_staves`)
+
 Every answer except `inv`, `winv`, `cache`, `np …` is `<result>;<full canonical dump of the state>`; the `M`
 component of the dump is the MEMO evaluated at the probe times.
 -/
@@ -33,15 +42,19 @@ import PartituraModel.Model.Timeline
 import PartituraModel.Model.TimelineExt
 import PartituraModel.Model.TimelineX
 import PartituraModel.Model.TimelineBuckets
+import PartituraModel.Model.TimelineY
 
 open Wire TL
 
 structure DState where
-  cpart : CPart
+  y : YPart
   classes : List Nat
+  staffs : List (Option Nat) := []
   bk : Buckets := []
 
-def DState.part (d : DState) : Part := d.cpart.part
+def DState.cpart (d : DState) : CPart := d.y.c
+def DState.part (d : DState) : Part := d.y.c.part
+def DState.staff (d : DState) (o : ObjRef) : Option Nat := (d.staffs.getD o.id none)
 
 def insertSorted (x : Nat) : List Nat → List Nat
   | [] => [x]
@@ -73,6 +86,9 @@ def dump (d : DState) : String :=
   ++ ";QT" ++ fmtList fmtInt (s.qtab.map (·.1))
   ++ ";QD" ++ fmtList fmtNat (s.qtab.map (·.2))
   ++ ";M" ++ fmtList (fmtOpt fmtNat) (probes.map (qdAt d.cpart.qcache))
+  ++ ";D" ++ fmtList (fun i => fmtOpt fmtInt (durationOf s { id := i, cls := d.classes.getD i 0 }))
+      (List.range d.classes.length)
+  ++ ";S" ++ fmtOpt fmtNat d.y.staves
 
 def fmtErr : Err → String
   | .invalidTimePoint => "err:InvalidTimePointException"
@@ -168,9 +184,26 @@ def parseOpX (classes : List Nat) : List String → Option OpX
       pure (OpX.iterAllX c a b incl m)) rest
   | ts => (parseOp classes ts).map OpX.base
 
+def parseOpY (classes : List Nat) : List String → Option OpY
+  | "tupS" :: rest => run (do
+      let i ← nat; let j ← opt nat
+      pure (OpY.tupletStart { id := i, cls := classes.getD i 0 } (j.map fun j => { id := j, cls := classes.getD j 0 }))) rest
+  | "tupE" :: rest => run (do
+      let i ← nat; let j ← opt nat
+      pure (OpY.tupletEnd { id := i, cls := classes.getD i 0 } (j.map fun j => { id := j, cls := classes.getD j 0 }))) rest
+  | "view" :: rest => run (do let n ← str; pure (OpY.view n)) rest
+  | ["staves"] => some OpY.staves
+  | ts => (parseOpX classes ts).map OpY.base
+
 def fmtOutX : OutX → String
   | .base o => fmtOut o
   | .qmap l => "qmap:" ++ fmtList (fmtOpt fmtNat) l
+
+def fmtOutY : OutY → String
+  | .base o => fmtOutX o
+  | .objs l => "objs:" ++ fmtOpt (fmtList (fun o => fmtNat o.id)) l
+  | .num n => "n:" ++ fmtNat n
+  | .dur x => "dur:" ++ fmtOpt fmtInt x
 
 def sweep (s : Part) (a b : Option Int) (withNone : Bool) : String :=
   let clss : List (Option Nat) := (if withNone then [none] else []) ++ (List.range Gen.numClasses).map some
@@ -209,14 +242,24 @@ def handle (d : DState) (ts : List String) : DState × String :=
   | "reset" :: rest =>
     match run (do let q ← nat; let cs ← list nat; pure (q, cs)) rest with
     | some (q, cs) =>
-      let d' : DState := { d with cpart := CPart.init q, classes := cs }
+      let d' : DState := { d with y := YPart.init q, classes := cs, staffs := [] }
       (d', "ok;" ++ dump d')
     | none => (d, "bad-request")
   | "reset0" :: rest =>
     match run (list nat) rest with
     | some cs =>
-      let d' : DState := { d with cpart := CPart.initDefault, classes := cs }
+      let d' : DState := { d with y := YPart.initDefault, classes := cs, staffs := [] }
       (d', "ok;" ++ dump d')
+    | none => (d, "bad-request")
+  | "staff" :: rest =>
+    match run (list (opt nat)) rest with
+    | some l => ({ d with staffs := l }, "ok")
+    | none => (d, "bad-request")
+  | "cmp" :: rest =>
+    match run (do let a ← int; let b ← int; pure (a, b)) rest with
+    | some (a, b) =>
+      (d, "cmp:" ++ fmtList (fun m => fmtOpt fmtBool (tpCompare m a b))
+        ["__lt__", "__le__", "__eq__", "__ge__", "__gt__", "__ne__"])
     | none => (d, "bad-request")
   | ["inv"] => (d, fmtBool (invB d.part))
   | ["winv"] => (d, fmtBool (winvB d.part))
@@ -246,20 +289,20 @@ def handle (d : DState) (ts : List String) : DState × String :=
       let ts := d.part.points.map (·.t)
       let qs := d.part.qtab.map (·.1)
       (d, "np:" ++ fmtTuple [fmtNat (bsearch ts t), fmtNat (searchsorted ts t), fmtNat (bsearch qs t),
-        fmtNat (searchsorted qs t)])
+        fmtNat (searchsorted qs t), fmtNat (searchsortedC ts t)])
     | none => (d, "bad-request")
   | "sweep" :: rest =>
     match run (do let a ← opt int; let b ← opt int; let n ← bool; pure (a, b, n)) rest with
     | some (a, b, n) => (d, sweep d.part a b n ++ ";" ++ dump d)
     | none => (d, "bad-request")
   | _ =>
-    match parseOpX d.classes ts with
+    match parseOpY d.classes ts with
     | none => (d, "bad-request")
     | some op =>
-      match stepX d.cpart op with
-      | .ok (c', out) =>
-        let d' := { d with cpart := c' }
-        (d', fmtOutX out ++ ";" ++ dump d')
+      match stepY d.staff d.y op with
+      | .ok (y', out) =>
+        let d' := { d with y := y' }
+        (d', fmtOutY out ++ ";" ++ dump d')
       | .error e => (d, fmtErr e ++ ";" ++ dump d)
 
-def main : IO Unit := mainLoopS handle { cpart := CPart.init 1, classes := [] }
+def main : IO Unit := mainLoopS handle { y := YPart.init 1, classes := [] }
